@@ -314,7 +314,14 @@ impl GrammarBuilder {
                 };
 
                 // Inherit meta-data from Rule.
+                // Associativity given on the production overrides the one
+                // given on the rule.
+                let prod_has_assoc = new_production.meta.contains_key("left")
+                    || new_production.meta.contains_key("right");
                 for (key, data) in &rule.meta {
+                    if prod_has_assoc && (key == "left" || key == "right") {
+                        continue;
+                    }
                     if !new_production.meta.contains_key(key) {
                         new_production.meta.insert(key.clone(), data.clone());
                     }
